@@ -553,6 +553,7 @@ func (x *Exec) step(st *State) []*State {
 			bind[i] = x.val(st, fr, b)
 		}
 		fr.regs[in] = x.funcValue(in.Fn.(*ssa.Function), bind)
+		x.checkClosureRequires(st, fr, in, bind)
 	case *ssa.Extract:
 		fr.regs[in] = x.val(st, fr, in.Tuple).(TupleV).Elems[in.Index]
 	case *ssa.Field:
@@ -1608,6 +1609,59 @@ func (x *Exec) callResolved(st *State, fr *Frame, instr ssa.CallInstruction, com
 	// unknown function value: name it after the expression it came from, if it is a parameter
 	name := funcValueName(com.Value)
 	return x.opaqueCall(st, fr, resInstr, name, fv, "", args, com.Signature().Results(), isDefer)
+}
+
+// checkClosureRequires: a closure's contract may assume facts about the variables it captures as they are when it is
+// created (`captured-requires 0 <= i && i < len(route)`); such a clause is an obligation of the function that creates
+// the closure, checked at the MakeClosure with the captured variables' values of that moment. (A plain `requires`
+// of a closure speaks about the state when it is called and is checked at call sites that use its contract.)
+func (x *Exec) checkClosureRequires(st *State, fr *Frame, in *ssa.MakeClosure, bind []Value) {
+	fn := in.Fn.(*ssa.Function)
+	c := x.contractOf(fn)
+	if c == nil || len(c.Requires) == 0 || fr.fn != x.root {
+		return
+	}
+	params := map[string]bool{}
+	for _, p := range fn.Params {
+		params[p.Name()] = true
+	}
+	vars := map[string]Value{}
+	addr := map[string]PtrV{}
+	for i, fv := range fn.FreeVars {
+		if i >= len(bind) {
+			continue
+		}
+		if pv, ok := bind[i].(PtrV); ok {
+			if _, isPtr := fv.Type().Underlying().(*types.Pointer); isPtr {
+				addr[fv.Name()] = pv
+				vars[fv.Name()] = x.loadP(st, pv)
+				continue
+			}
+		}
+		vars[fv.Name()] = bind[i]
+	}
+	for i, r := range c.Requires {
+		if !r.AtCreation {
+			continue
+		}
+		mentionsParam := false
+		ast.Inspect(r.Expr, func(n ast.Node) bool {
+			if id, ok := n.(*ast.Ident); ok && params[id.Name] {
+				mentionsParam = true
+			}
+			return true
+		})
+		if mentionsParam {
+			panic(engineErr("captured-requires of %s mentions a parameter", relName(fn)))
+		}
+		sc := &specCtx{x: x, st: st, vars: vars, pkg: fnPkg(fn), fn: fn, heap: st.heap, lets: map[string]Value{}, noGhost: true, addrVars: addr}
+		lbl := r.Label
+		if lbl == "" {
+			lbl = fmt.Sprint(i + 1)
+		}
+		site := fmt.Sprintf("%s@%s.b%d.%d", relName(fn), relName(fr.fn), fr.block.Index, fr.idx)
+		x.assert(st, x.oblName("closure-requires", 0, site+":"+lbl), "closure-requires", r.Text, r.Src, x.evalBool(sc, r.Expr), true)
+	}
 }
 
 // assumeIfaceContract: an assumed (ext) contract on an interface method, e.g. (reflect.Type).Kind being a pure
